@@ -133,7 +133,7 @@ reg(
     "fault-free, all pairs x all scripts up to the depth bound over {accept 0,1,2,3,all, Interrupted, WouldBlock, Other}, plus seeded random "
     "data; the bytes the writer accepted are parsed and interpreted by the reference models; non-trivial = a colour is requested or a "
     "fault is injected; enumerated cases distinct by construction, random by hash",
-    [A_REFVT, A_REFSGR, "the data write is identified in the inner-writer log as the call that offers exactly the data bytes (data never starts with ESC in scripted runs)"],
+    [A_REFVT, A_REFSGR, "the data write is identified in the inner-writer log as the first write after the (up to two) colour codes were written completely (codes are written with write_all semantics, the data with one write)"],
     simple("c17"),
     exhaustive={"quick": False, "thorough": False},
 )
@@ -399,4 +399,24 @@ reg(
     [A_REFVT, A_REFSGR, "bold together with faint is not generated (the segmenter keeps one intensity) - DESIGN 8.9",
      "styles accumulated over several sequences and 256-colour / RGB codes are outside the explored domain, as the property's quantifier says"],
     simple("c15"),
+)
+
+
+from . import c04 as _c04  # noqa: E402
+
+reg(
+    "C04",
+    "No panic, overflow or memory error on any untrusted input",
+    "exploration",
+    "cases = inputs pushed through every entry point that consumes terminal output or style text (Parser::advance, strip_bytes/str, "
+    "StripStr/StripBytes/WinconBytes under random chunkings, StripStream with every write method, AutoStream::never, render_svg x2, "
+    "to_roff/render, anstyle_git::parse, anstyle_ls::parse, all anstyle_lossy conversions with random palettes, Style/Color/Effects "
+    "rendering): arbitrary bytes, hostile grammar streams, sequences sitting on the documented limits, arbitrary Unicode, SGR text, "
+    "near-valid style strings, plus the bounded sets of the other checks; run under the lanes rel / dbg (debug assertions + overflow "
+    "checks) / AddressSanitizer / Miri (and valgrind memcheck in the thorough tier), each sanitizer lane guarded by a canary; oracles: "
+    "no panic or trap, returned text pieces valid UTF-8 inside the input, no sanitizer report; distinct by 64-bit hash per lane; "
+    "non-trivial = input contains a byte outside printable ASCII",
+    ["a clean sanitizer run says nothing about inputs or paths the workload did not reach; Miri / valgrind see reduced workloads (their slowdown is 3-4 orders of magnitude)",
+     "signatures of the functional checks other than panic / invalid piece are not C04's business and are ignored here (they are reported by their own property)"],
+    {"run": _c04.run, "replay": _c04.replay, "replay_case": None},
 )
